@@ -43,6 +43,10 @@ class MLock:
         self.depth -= 1
         if self.depth == 0:
             self.owner = None
+            # code between the end of a lock region and the next shared action is a step of
+            # its own: it is thread-local in the library as written, but a change that moves a
+            # shared access out of a region must be exposed to preemption here
+            self.S.yield_('released', self.tag)
 
     def __enter__(self):
         self.acquire()
